@@ -1014,3 +1014,105 @@ def rule_decoration_columns_unused(prog, rep, rid, title, scope_calls=(), scope_
     r.info["scope_roots"] = sorted(roots)[:12]
     r.add("scope", True, f"{len(scope)} function(s) in scope ({len(roots)} root(s)); {n_reads} read(s) of occupancy / temperature factor examined")
     return r
+
+
+_CARRY_MUTATORS = LIST_MUTATORS | {"add", "update", "setdefault", "discard", "popitem", "appendleft", "difference_update", "intersection_update"}
+
+
+def loop_carried_state(fn, loop, allowed=()):
+    """Places (local names, `self.attr`) through which one iteration of `loop` can influence a later one: written or mutated in the body,
+    alive across iterations (bound outside the body, or an attribute of self) and read in the body before the iteration itself has assigned
+    them - reads that are part of the update itself (`n += 1`, `seen.add(x)`) do not count.  -> {place: (write node, read node)}"""
+    targets = {n.id for n in ast.walk(loop.target) if isinstance(n, ast.Name)}
+
+    def place(n):
+        if isinstance(n, ast.Name):
+            return n.id
+        if isinstance(n, ast.Attribute) and isinstance(n.value, ast.Name) and n.value.id == "self":
+            return f"self.{n.attr}"
+        return None
+
+    def root(n):
+        while isinstance(n, (ast.Subscript, ast.Attribute)):
+            p = place(n)
+            if p is not None:
+                return p
+            n = n.value
+        return place(n)
+
+    body = [n for st in loop.body for n in walk_no_defs(st)]
+    writes = {}
+    own_reads = set()
+    for n in body:
+        if isinstance(n, (ast.Name, ast.Attribute)) and isinstance(n.ctx, (ast.Store, ast.Del)) and place(n):
+            writes.setdefault(place(n), n)
+        elif isinstance(n, (ast.Subscript, ast.Attribute)) and isinstance(n.ctx, (ast.Store, ast.Del)):
+            r_ = root(n.value)
+            if r_:
+                writes.setdefault(r_, n)
+                own_reads |= {id(x) for x in ast.walk(n.value)}
+        elif isinstance(n, ast.Call) and isinstance(n.func, ast.Attribute) and n.func.attr in _CARRY_MUTATORS:
+            r_ = root(n.func.value)
+            if r_:
+                writes.setdefault(r_, n)
+                own_reads |= {id(x) for x in ast.walk(n.func.value)}
+        if isinstance(n, ast.AugAssign):
+            own_reads |= {id(x) for x in ast.walk(n.target)}
+    outside = {a.arg for a in fn.args.args + fn.args.kwonlyargs}
+    inbody = {id(n) for n in body}
+    for n in walk_no_defs(fn):
+        if id(n) not in inbody and isinstance(n, ast.Name) and isinstance(n.ctx, ast.Store):
+            outside.add(n.id)
+    cands = {p for p in writes if (p.startswith("self.") or p in outside) and p not in targets and p not in allowed and p != "self"}
+    found = {}
+
+    def reads_in(node, assigned):
+        for n in walk_no_defs(node):
+            p = place(n) if isinstance(n, (ast.Name, ast.Attribute)) and isinstance(getattr(n, "ctx", None), ast.Load) else None
+            if p in cands and p not in assigned and id(n) not in own_reads and p not in found:
+                found[p] = (writes[p], n)
+
+    def run(stmts, assigned):
+        assigned = set(assigned)
+        for st in stmts:
+            if isinstance(st, ast.If):
+                reads_in(st.test, assigned)
+                a = run(st.body, assigned)
+                b = run(st.orelse, assigned)
+                assigned = a & b
+            elif isinstance(st, (ast.For, ast.While, ast.Try, ast.With)):
+                for sub in ast.iter_child_nodes(st):
+                    if isinstance(sub, ast.stmt):
+                        continue
+                    reads_in(sub, assigned)
+                for field in ("body", "orelse", "finalbody"):
+                    run(getattr(st, field, []) or [], assigned)
+                for h in getattr(st, "handlers", []) or []:
+                    run(h.body, assigned)
+            else:
+                if isinstance(st, ast.Assign):
+                    reads_in(st.value, assigned)
+                    for t_ in st.targets:
+                        if place(t_):
+                            assigned.add(place(t_))
+                        else:
+                            reads_in(t_, assigned)
+                else:
+                    reads_in(st, assigned)
+        return assigned
+
+    run(loop.body, set())
+    return found
+
+
+def rule_iterations_independent(rep, rid, title, f, loop, allowed=(), floor=1, what="residue"):
+    """One iteration of the loop decides for one `what`; the property states that decision as a function of that item alone, so nothing an
+    earlier iteration wrote may be read by a later one (listed exceptions: the table an iteration consumes its own entry from)."""
+    r = rep.rule(rid, title, floor=floor)
+    where = f"pdb2pqr/{f.module.rel}:{loop.lineno} ({f.qual})"
+    found = loop_carried_state(f.node, loop, allowed)
+    for p, (w, rd) in sorted(found.items()):
+        r.bad(f"carried|{p}", f"`{p}` is changed at line {w.lineno} (`{U(w)[:60]}`) and read at line {rd.lineno} by a later iteration: what is decided for one "
+              f"{what} depends on the {what}s visited before it", where)
+    r.add("loop", not found, f"the loop over {U(loop.iter)} carries no state from one {what} to the next" + (f" (other than {sorted(allowed)})" if allowed else ""), where)
+    return r
